@@ -28,15 +28,15 @@ Proof. vm_compute. reflexivity. Qed.
 Example ex_wf2 : wf_heap2 ex_heap = true /\ memz 0 (owned_list ex_heap) = false.
 Proof. vm_compute. split; reflexivity. Qed.
 
-Example ex_deep_runs : exists s y, run 10 ex_heap 0 RDeep = Ok (s, R y) /\ y = 9 /\ hlen (sh s) = 19.
+Example ex_deep_runs : exists s y, run false 10 ex_heap 0 RDeep = Ok (s, R y) /\ y = 9 /\ hlen (sh s) = 19.
 Proof. eexists. eexists. vm_compute. repeat split. Qed.
 
-Example ex_scoped_runs : exists s y, run 10 ex_heap 0 (RScoped 1) = Ok (s, R y) /\ y = 9 /\ hlen (sh s) = 16.
+Example ex_scoped_runs : exists s y, run false 10 ex_heap 0 (RScoped 1) = Ok (s, R y) /\ y = 9 /\ hlen (sh s) = 16.
 Proof. eexists. eexists. vm_compute. repeat split. Qed.
 
 (* the copy's bound annotation is bound to the copy: its value tuple is (copy, same attribute name) *)
 Example ex_bound_follows_copy :
-  match run 10 ex_heap 0 RDeep with
+  match run false 10 ex_heap 0 RDeep with
   | Ok (s, R y) =>
     match bget (body_of s y) NM_ANN with
     | Some (R sy) =>
@@ -73,7 +73,7 @@ Definition twin_heap : heap := [
 Example twin_heap_wf : wf_heap twin_heap [] = true.
 Proof. vm_compute. reflexivity. Qed.
 
-Example twin_heap_copy_fails : run 8 twin_heap 0 RDeep = Err AttrErr.
+Example twin_heap_copy_fails : run false 8 twin_heap 0 RDeep = Err AttrErr.
 Proof. vm_compute. reflexivity. Qed.
 
 (* DEFECT 2: AnnotationSet.__deepcopy__ looks up memo[id(self.target)]; for the per-cell annotation
@@ -90,9 +90,13 @@ Definition cell_heap (first : val) : heap := [
 Example cell_heap_wf : forall v, v = P 0 \/ v = P 60 -> wf_heap (cell_heap v) [] = true.
 Proof. intros v [E|E]; subst; vm_compute; reflexivity. Qed.
 
-Example cell_heap_copy_fails : run 6 (cell_heap (P 60)) 0 RDeep = Err KeyErr.
+Example cell_heap_copy_fails : run false 6 (cell_heap (P 60)) 0 RDeep = Err KeyErr.
 Proof. vm_compute. reflexivity. Qed.
 
+(* with the defect repaired (nf = true) the same copy succeeds *)
+Example cell_heap_copy_repaired : exists s y, run true 6 (cell_heap (P 60)) 0 RDeep = Ok (s, R y).
+Proof. eexists. eexists. vm_compute. reflexivity. Qed.
+
 Example cell_heap_copy_works_by_accident :
-  exists s y, run 6 (cell_heap (P 0)) 0 RDeep = Ok (s, R y).
+  exists s y, run false 6 (cell_heap (P 0)) 0 RDeep = Ok (s, R y).
 Proof. eexists. eexists. vm_compute. reflexivity. Qed.
